@@ -46,7 +46,7 @@ def pregen(ctx):
     facts = []
     for name, rel, ups, carried in FILTERS:
         try:
-            f = fx.extract(core.REPO, rel, name, ups, carried)
+            f = fx.extract(core.REPO, rel, name, ups, carried, rng_guard=None if name == 'OLEQ' else 'q0')
         except Exception as e:                                   # fail closed
             ctx.broken.append({'kind': 'translation', 'target': f'C06facts/{name}', 'error': f'{type(e).__name__}: {e}'})
             ctx.say(f'[gen] C06facts: {name} could not be extracted: {e}')
@@ -134,10 +134,24 @@ def _same(a, b):
 
 def _kw(inp):
     kw = dict(inp.get('kw') or {})
-    for k in ('q0', 'b0', 'noises', 'weights'):
-        if k in kw and kw[k] is not None:
+    for k in list(kw):
+        if isinstance(kw[k], (list, tuple)):
             kw[k] = np.array(kw[k], dtype=float)
     return kw
+
+
+class _RngAdvanced(Exception):
+    pass
+
+
+def _rng_state():
+    s = np.random.get_state()
+    return (s[0], s[1].tobytes(), s[2], s[3], s[4])
+
+
+def _rng_user(name, kw, batch):
+    """the recorded users of the NumPy global generator: OLEQ always; ROLEQ's constructor when it has to estimate its first row"""
+    return name in ('OLEQ',) or (name == 'ROLEQ' and batch and kw.get('q0') is None)
 
 
 def _ctor(name, sensors, gyr, acc, mag, kw):
@@ -171,7 +185,11 @@ def _batch(name, arch, hist, kw, npseed, share=False):
     sensors, _ = ARCHS[(name, arch)]
     gyr, acc, mag = hist if share else (x.copy() for x in hist)
     np.random.seed(npseed)
-    return np.asarray(_ctor(name, sensors, gyr, acc, mag, kw if share else copy.deepcopy(kw)).Q, dtype=float)
+    st = _rng_state()
+    Q = np.asarray(_ctor(name, sensors, gyr, acc, mag, kw if share else copy.deepcopy(kw)).Q, dtype=float)
+    if _rng_state() != st and not _rng_user(name, kw, True):
+        raise _RngAdvanced(f'{name}({", ".join(sorted(kw))}) with data advanced the NumPy global generator')
+    return Q
 
 
 def _stream(name, arch, hist, kw, q0, npseed, obj=None, share=False, notes=None, dt=None):
@@ -179,10 +197,13 @@ def _stream(name, arch, hist, kw, q0, npseed, obj=None, share=False, notes=None,
     gyr, acc, mag = hist if share else (x.copy() for x in hist)
     np.random.seed(npseed)
     kw2 = {k: v for k, v in (kw if share else copy.deepcopy(kw)).items() if k != 'q0'}
+    st = _rng_state()
     obj = getattr(_F(), name)(**kw2) if obj is None else obj
     q = np.array(q0, dtype=float)
     out = [q.copy()]
     for t in range(1, len(gyr)):
+        if _rng_state() != st and not _rng_user(name, kw, False):
+            raise _RngAdvanced(f'{name}: construction without data or call {t - 1} of {entry} advanced the NumPy global generator')
         qin = q if isinstance(q, np.ndarray) else np.array(q, dtype=float)
         before = qin.tobytes()
         q = _call_update(obj, name, entry, qin, sensors, gyr[t], acc[t], mag[t], kw, dt=dt)      # rows are views of the caller's arrays
@@ -237,6 +258,8 @@ def _guard(fn, entry):
             with warnings.catch_warnings():
                 warnings.simplefilter('ignore')
                 return fn()
+    except _RngAdvanced as e:
+        return {'tag': f'{entry}/advances-global-rng', 'observed': str(e)[:200], 'expected': 'np.random.get_state() unchanged'}
     except Exception as e:
         return {'tag': f'{entry}/raises-{type(e).__name__}', 'observed': str(e)[:200]}
 
@@ -547,6 +570,41 @@ KWVALUES = {
 }
 KWSCALARS = {'frequency', 'Dt', 'gain', 'gain_imu', 'gain_marg', 'beta', 'k_P', 'k_I', 'kp', 'ki', 'frame', 'alpha', 'kappa', 'threshold',
              'adaptive', 'order', 'method', 'representation', 'gyr', 'acc', 'mag'}
+# a NON-default value for every scalar constructor keyword (per class where the same name means different things)
+KWSCALAR_VALUES = {
+    'frequency': 50.0, 'Dt': 0.02, 'gain': 0.07, 'gain_imu': 0.05, 'gain_marg': 0.06, 'beta': 0.08, 'k_P': 2.0, 'k_I': 0.1, 'kp': 1.5, 'ki': 0.2,
+    'frame': 'ENU', 'alpha': 0.05, 'kappa': 0.5, 'threshold': 0.8, 'adaptive': True, 'order': 2, 'method': 'series',
+    ('UKF', 'alpha'): 0.01, ('UKF', 'beta'): 1.5, ('Fourati', 'magnetic_dip'): 60.0, ('EKF', 'magnetic_ref'): 60.0, ('ROLEQ', 'magnetic_ref'): 55.0,
+}
+KW_NOT_SWEPT = {'gyr', 'acc', 'mag', 'representation'}        # the data, and the output representation (.Q needs 'quaternion')
+
+
+def keyword_sweep(name):
+    """(keyword, JSON-able non-default value) for EVERY constructor keyword of the class -- names from inspect.signature of the real
+    class plus the names its source looks up in **kwargs; keywords without a value generator are returned separately"""
+    import inspect
+    import pyfx_c06 as fx
+    from vlib import core
+    rel = next(r for n, r, _, _ in FILTERS if n == name)
+    names = [p for p in inspect.signature(getattr(_F(), name).__init__).parameters if p not in ('self', 'kwargs', 'kw')]
+    for k in fx.Extractor(fx.Package(os.path.join(core.REPO, 'ahrs')), rel, name).kwarg_names():
+        if k not in names:
+            names.append(k)
+    out, missing = [], []
+    for k in names:
+        if k in KW_NOT_SWEPT:
+            continue
+        if (name, k) in KWSCALAR_VALUES:
+            out.append((k, KWSCALAR_VALUES[(name, k)]))
+        if k in KWVALUES:
+            out.append((k, KWVALUES[k]().tolist()))
+        elif k in KWSCALAR_VALUES and (name, k) not in KWSCALAR_VALUES:
+            out.append((k, KWSCALAR_VALUES[k]))
+        elif (name, k) not in KWSCALAR_VALUES:
+            missing.append(k)
+    return out, missing
+
+
 _KWCACHE = {}
 
 
@@ -577,6 +635,9 @@ def o_kwshare(inp):
         fresh = lambda: {**base, **{k: v.copy() for k, v in vals0.items()}}
         B0 = _batch(name, arch, hist, fresh(), seed)
         S0 = _stream(name, arch, hist, fresh(), B0[0], seed)
+        if name != 'AngularRate' and not _same(B0, S0) and not (name == 'Madgwick' and arch == 'MARG'):
+            return {'tag': f'{entry}/batch-vs-stream', 'observed': {'keywords': names, 'max_abs_diff': float(np.nanmax(np.abs(B0 - S0)))},
+                    'expected': 'bit-identical rows'}
         shared = {**base, **{k: v.copy() for k, v in vals0.items()}}
 
         def bad():
@@ -661,9 +722,6 @@ def _foot_from_coq(ctx):
     return res
 
 
-def _rng_state():
-    s = np.random.get_state()
-    return (s[0], s[1].tobytes(), s[2], s[3], s[4])
 
 
 def correspondence(ctx):
@@ -891,6 +949,25 @@ def search(ctx, scale):
                        'hseed': int(rng.integers(1 << 30)), 'N': NS[int(rng.integers(1, 6))], 'kind': ('generic', 'zero' + ZERO_OK[name], 'fast')[(hi + rep) % 3],
                        'npseed': int(rng.integers(1 << 16))}
                 ctx.check('dt', inp, o_dt(inp), nontrivial_key=('dt', name, arch, hz, rep))
+    # EVERY constructor keyword (inspect.signature + the names looked up in **kwargs) with a non-default value, one at a time and all
+    # together: batch vs stream built with the same keywords, repeat, and an interleaving against a default instance of the class
+    for (name, arch) in cfgs:
+        sweep, missing = keyword_sweep(name)
+        if missing:
+            ctx.say(f'[search] {name}: constructor keywords without a non-default value generator (not swept): {missing}')
+        both = {}
+        for k, v in sweep:
+            if not ({'gain', 'beta'} & set(both) and k in ('gain', 'beta')) and not (k == 'magnetic_dip' and name != 'Fourati'):
+                both.setdefault(k, v)
+        for kws in [{k: v} for k, v in sweep] + [both]:
+            for rep in range(scale):
+                inp = {'filter': name, 'arch': arch, 'kw': kws, 'hseed': int(rng.integers(1 << 30)), 'N': NS[int(rng.integers(1, 6))],
+                       'kind': ('generic', 'zero' + ZERO_OK[name])[rep % 2], 'npseed': int(rng.integers(1 << 16))}
+                ctx.check('stream', inp, o_stream(inp), nontrivial_key=('sweep', name, arch, tuple(sorted(kws)), rep))
+            inp = {'A': {'filter': name, 'arch': arch, 'kw': kws, 'hseed': int(rng.integers(1 << 30)), 'N': 5, 'kind': 'generic'},
+                   'B': {'filter': name, 'arch': arch, 'kw': {}, 'hseed': int(rng.integers(1 << 30)), 'N': 4, 'kind': 'generic'},
+                   'iseed': int(rng.integers(1 << 30)), 'same_data': False}
+            ctx.check('interleave', inp, o_interleave(inp), nontrivial_key=('sweep-il', name, arch, tuple(sorted(kws))))
     # the rate configured in the constructor (frequency= / Dt= / both), streamed WITHOUT dt
     for (name, arch) in cfgs:
         for hi, hz in enumerate((25.0, 50.0, 250.0)):
